@@ -795,6 +795,10 @@ fn run_op(w: &mut World, op: &Value) -> Value {
             }
             json!({"trap": trap, "steps": steps})
         }
+        "percentiles" => {
+            let vals: Vec<u64> = op["values"].as_array().unwrap().iter().map(|x| x.as_u64().unwrap()).collect();
+            json!(ic_btc_canister::verif_percentiles(vals))
+        }
         "tree" => {
             let hashes = with_state(|s| unstable_blocks::get_block_hashes(&s.unstable_blocks));
             json!({"blocks": hashes.iter().map(|h| block_id_of(w, &h.to_vec())).collect::<Vec<_>>(),
